@@ -1,3 +1,177 @@
+import Proofs.C01Examples
+/-!
+C01 — clustering results are self-consistent for every algorithm and input.
+
+`Consistent D n s` (Proofs/C01Pam.lean) is the property's predicate: center coordinates are the frames at
+the center indices (which are frames of the data); every frame's distance is the table distance to the
+center it is labelled with, the label being a position of the center list; no center is strictly closer;
+every center frame carries its own label at distance zero.
+`TableOK D n`: the metric is zero exactly on the diagonal and never negative ("distinct points");
+neither symmetry nor the triangle inequality is assumed.
+"Inputs are not modified" and float rounding are outside the model (checked on the real code by
+byte snapshots / tolerances in harness/props/c01.py).
+All theorems: every size `n`, every table, every stopping parameter, every proposal list / oracle.
+-/
 namespace C01
-theorem placeholder : True := trivial
+open Ens Ens.Cluster Ens.Cluster.Ex
+
+/-! ### `assign_to_nearest_center` -/
+
+/-- the loop branch of `assign_to_nearest_center` over distinct frames of the data gives a consistent state -/
+theorem assignNearest_consistent {D : Table} {n : Nat} (T : TableOK D n) {cs : List Nat}
+    (hne : cs ≠ []) (hnd : cs.Nodup) (hlt : ∀ c ∈ cs, c < n) :
+    Consistent D n { arr := assignNearest D n cs, ctrInds := cs, ctrFrames := cs } :=
+  Consistent.of_runMin T (RunMin.assignNearest D n cs) hne (Inj_of_nodup hnd) hlt
+
+example : Consistent D6 6 s6 := assignNearest_consistent D6_ok (by decide) (by decide) (by decide)
+
+/-- whichever branch of `assign_to_nearest_center` runs (loop over centers, or per-frame argmin when there
+are more centers than frames and they are an `md.Trajectory`) -/
+theorem assignToNearestCenter_consistent {D : Table} {n : Nat} (T : TableOK D n) {cs : List Nat} {xyz : Bool}
+    {a : Arr} (hne : cs ≠ []) (hnd : cs.Nodup) (hlt : ∀ c ∈ cs, c < n)
+    (h : assignToNearestCenter D n cs xyz = .ok a) :
+    Consistent D n { arr := a, ctrInds := cs, ctrFrames := cs } :=
+  Consistent.of_runMin T (RunMin.assignToNearestCenter h hne) hne (Inj_of_nodup hnd) hlt
+
+/-- `find_cluster_centers` recovers the center indices of a consistent state (so the indices inferred by the
+warm starts are the centers the labels refer to) -/
+theorem findClusterCenters_of_consistent {D : Table} {n : Nat} (T : TableOK D n) {s : St}
+    (hs : Consistent D n s) : findClusterCenters n s.arr = some s.ctrInds :=
+  findClusterCenters_eq T hs
+
+/-! ### what `Consistent` gives: labels in range, distinct centers -/
+
+theorem consistent_labels_in_range {D : Table} {n : Nat} {s : St} (hs : Consistent D n s) {f : Nat}
+    (hf : f < n) : 0 ≤ s.arr.assign f ∧ s.arr.assign f < (s.ctrInds.length : Nat) := by
+  obtain ⟨k, c, h1, h2, _⟩ := hs.lab f hf
+  have := getElem?_lt h2
+  rw [h1]; constructor
+  · exact Int.natCast_nonneg k
+  · exact_mod_cast this
+
+theorem consistent_centers_distinct {D : Table} {n : Nat} {s : St} (hs : Consistent D n s) :
+    s.ctrInds.Nodup := by
+  rw [List.nodup_iff_getElem?_ne_getElem?]
+  intro i j hij hj h
+  have hi : i < s.ctrInds.length := lt_trans hij hj
+  have e1 : s.ctrInds[i]? = some s.ctrInds[i] := List.getElem?_eq_getElem hi
+  have e2 : s.ctrInds[j]? = some s.ctrInds[i] := by rw [← h]; exact e1
+  have := hs.inj i j _ e1 e2
+  omega
+
+/-! ### k-centers -/
+
+/-- `kcenters` (cold start, or warm start from distinct frames of the data) returns a consistent state,
+for every cluster count ≥ 1 (or none) and every radius ≥ 0 -/
+theorem kcenters_consistent {D : Table} {n : Nat} (T : TableOK D n) {nClusters : Option Nat} {cutoff : Rat}
+    {init : Option (List Nat)} {fuel : Nat} {s : St}
+    (hk : nClusters ≠ some 0) (hc : 0 ≤ cutoff)
+    (hinit : ∀ cs, init = some cs → cs ≠ [] ∧ cs.Nodup ∧ ∀ c ∈ cs, c < n)
+    (h : kcenters D n nClusters cutoff init fuel = .ok s) : Consistent D n s := by
+  unfold kcenters at h
+  simp only [bind, Except.bind] at h
+  have fin : ∀ s0, KInv D n s0 → n ≠ 0 → kcentersLoop D n nClusters cutoff fuel s0 = .ok s →
+      Consistent D n s := by
+    intro s0 hs0 h0 h'
+    obtain ⟨hinv, hstop⟩ := kcentersLoop_inv T (Nat.pos_of_ne_zero h0) hc fuel hs0 h'
+    exact hinv.consistent T (stopped_nonempty hinv hk hstop)
+  by_cases h0 : n = 0
+  · cases init with
+    | none => simp [h0, pure, Except.pure, throw, throwThe, MonadExceptOf.throw] at h
+    | some cs =>
+      obtain ⟨hne, _, hlt⟩ := hinit cs rfl
+      obtain ⟨c, hc'⟩ := List.exists_mem_of_ne_nil cs hne
+      have := hlt c hc'
+      omega
+  · cases init with
+    | none =>
+      simp only [pure, Except.pure, h0, if_false] at h
+      exact fin _ (KInv.cold D n) h0 h
+    | some cs =>
+      obtain ⟨hne, hnd, hlt⟩ := hinit cs rfl
+      simp only [kcentersWarm_ok T hne hnd hlt, h0, if_false] at h
+      refine fin _ ?_ h0 h
+      exact { frames := rfl, inds_lt := hlt, inj := Inj_of_nodup hnd, rm := RunMin.assignNearest D n cs }
+
+example : (kcenters D6 6 (some 3) 0 none 8).toOption.map (fun s => (s.ctrInds, s.arr.assignA)) =
+    some ([0, 5, 3], #[0, 0, 0, 2, 2, 1]) := by decide +kernel
+example : (kcenters D6 6 none 2 (some [4, 1]) 8).toOption.map (fun s => (s.ctrInds, s.ctrFrames, s.arr.assignA)) =
+    some ([4, 1, 5], [4, 1, 5], #[1, 1, 1, 0, 0, 2]) := by decide +kernel
+
+/-! ### k-medoids -/
+
+/-- one PAM step (any proposed frame, accepted or rejected) keeps the state consistent -/
+theorem pamStep_preserves_consistent {D : Table} {n : Nat} (T : TableOK D n) {s : St} (hs : Consistent D n s)
+    {cid p : Nat} (hcid : cid < s.ctrInds.length) (hp : p < n) {st : PamStep}
+    (h : pamStep D n s cid p = .ok st) : Consistent D n st.after :=
+  pamStep_consistent T hs hcid hp h
+
+/-- …and such a step never trips the asserts of `_kmedoids_pam_update` (the hypothesis `= .ok` above is
+never vacuous) -/
+theorem pamStep_total_of_consistent {D : Table} {n : Nat} (T : TableOK D n) {s : St} (hs : Consistent D n s)
+    {cid p : Nat} (hcid : cid < s.ctrInds.length) (hp : p < n) : ∃ st, pamStep D n s cid p = .ok st :=
+  pamStep_total T hs hcid hp
+
+/-- the three reassignment branches of one step on the six points: frames 1,2 move to the proposal (`dst_dn`),
+frames 3,4,5 stay with the other center (`dst_up_assig_other`), frame 0 is recomputed (`dst_up_assig_this`);
+the step is accepted -/
+example : (pamStep D6 6 s6 0 1).toOption.map (fun st => (st.dn, st.other, st.this, st.acc)) =
+    some (2, 3, 1, true) := by decide +kernel
+example : (pamStep D6 6 s6 0 1).toOption.map (fun st => (st.after.ctrInds, st.after.arr.assignA)) =
+    some ([1, 5], #[0, 0, 0, 1, 1, 1]) := by decide +kernel
+/-- a rejected step on the same state (proposal 3 for cluster 0) -/
+example : (pamStep D6 6 s6 0 2).toOption.map (fun st => (st.dn, st.other, st.this, st.acc, st.after == s6)) =
+    some (1, 3, 2, false, true) := by decide +kernel
+
+/-- one sweep of `_kmedoids_pam_update` (explicit proposals or random choices from any oracle) keeps the
+state consistent -/
+theorem pamUpdate_preserves_consistent {D : Table} {n : Nat} (T : TableOK D n) {s s' : St}
+    {props : Option (List Nat)} {orc orc' : List Nat} {tr : List PamStep} (hs : Consistent D n s)
+    (h : pamUpdate D n s props orc = .ok (s', orc', tr)) : Consistent D n s' :=
+  pamUpdate_consistent T hs h
+
+/-- `kmedoids` (any number of sweeps, explicit proposals or any oracle; start from distinct center indices,
+from a full consistent state, or from the labels+distances of one): the result and the state after every
+sweep are consistent -/
+theorem kmedoids_consistent {D : Table} {n nIters : Nat} (T : TableOK D n) {inds : Option (List Nat)}
+    {ad : Option Arr} {props : Option (List Nat)} {orc : List Nat} {r : Run}
+    (hw : WarmOK D n inds ad) (h : kmedoids D n nIters inds ad props orc = .ok r) :
+    Consistent D n r.final ∧ ∀ x ∈ r.sweeps, Consistent D n x := by
+  obtain ⟨s, hs, hit⟩ := kmedoids_start T hw h
+  obtain ⟨k, _, hsw⟩ := kmedoidsIterations_ok hit
+  exact sweepsFrom_consistent T (k+1) hs hsw
+
+example : (kmedoids D6 6 2 (some [0, 5]) none (some [1, 4]) []).toOption.map
+    (fun r => (r.final.ctrInds, r.final.ctrFrames, r.final.arr.assignA, r.trace.map (·.acc))) =
+    some ([1, 4], [1, 4], #[0, 0, 0, 1, 1, 1], [true, true, false, false]) := by decide +kernel
+example : (kmedoids D6 6 1 none (some s6.arr) none [2, 0]).toOption.map
+    (fun r => (r.final.ctrInds, r.trace.map (fun st => (st.p, st.acc)))) =
+    some ([0, 3], [(2, false), (3, true)]) := by decide +kernel
+
+/-- `hybrid` = `kcenters` then the sweeps with random proposals (any oracle): consistent -/
+theorem hybrid_consistent {D : Table} {n : Nat} (T : TableOK D n) {nClusters : Option Nat} {cutoff : Rat}
+    {init : Option (List Nat)} {fuel nIters : Nat} {orc : List Nat} {r : Run}
+    (hk : nClusters ≠ some 0) (hc : 0 ≤ cutoff)
+    (hinit : ∀ cs, init = some cs → cs ≠ [] ∧ cs.Nodup ∧ ∀ c ∈ cs, c < n)
+    (h : hybrid D n nClusters cutoff init fuel nIters orc = .ok r) :
+    Consistent D n r.final ∧ ∀ x ∈ r.sweeps, Consistent D n x := by
+  unfold hybrid at h
+  simp only [bind, Except.bind] at h
+  cases hkc : kcenters D n nClusters cutoff init fuel with
+  | error e => simp [hkc] at h
+  | ok s =>
+    simp only [hkc] at h
+    have hs := kcenters_consistent T hk hc hinit hkc
+    by_cases hpos : nIters > 0
+    · simp only [hpos, if_true] at h
+      obtain ⟨k, _, hsw⟩ := kmedoidsIterations_ok h
+      exact sweepsFrom_consistent T (k+1) hs hsw
+    · simp only [hpos, if_false, pure, Except.pure] at h
+      injection h with h; subst h
+      exact ⟨hs, by simp⟩
+
+example : (hybrid D6 6 (some 2) 0 none 8 2 [1, 1, 0, 2]).toOption.map
+    (fun r => (r.final.ctrInds, r.final.arr.assignA, r.trace.map (fun st => (st.p, st.acc)))) =
+    some ([1, 4], #[0, 0, 0, 1, 1, 1], [(1, true), (4, true), (0, false), (5, false)]) := by decide +kernel
+
 end C01
